@@ -13,6 +13,7 @@ CONSTANTS
   Solve2Modes <- Solve2Pinned
   Progbars <- PbOff
   Progbar0Modes <- PbOK
+  IntRepeatModes <- IrOK
   PrintCases = FALSE
 INVARIANT Schrodinger
 CHECK_DEADLOCK FALSE
